@@ -21,3 +21,10 @@ package utils
 //@ invariant lt_ne: borrow == 1 ==> diff != 0
 //@ invariant eq: (diff == 0) == alleq(a, b, i+1, l)
 //@ decreases i + 1
+
+// Constant-time contract (property C08): both operands may be secret; the only secret-dependent
+// control flow is the conversion of the accumulated borrow/difference into the returned verdict.
+//@ func utils.ConstantTimeCmp#ct
+//@ secret a, b
+//@ declassify borrow == 0 : the comparison outcome is the value the function returns (final verdict)
+//@ declassify diff != 0 : the comparison outcome is the value the function returns (final verdict)
